@@ -166,7 +166,12 @@ Definition unit_second (c : case) : verdict :=
 (* the theorems' hypothesis holds for what the parser produced *)
 Definition unit_wf (c : case) : verdict :=
   {| v_agree := match model0 c with
-                | Ok m => wf_mdomain (numtab8 c) (c_dpre c) (c_deff c) m || known_class c
+                | Ok m => (wf_mdomain (numtab8 c) (c_dpre c) (c_deff c) m &&
+                           (* ... and so does the re-read domain (C08_idempotent's intermediate result) *)
+                           match model1 c with
+                           | Ok m1 => wf_mdomain (numtab8 c) (c_dpre c) (c_deff c) m1
+                           | Err _ => false
+                           end) || known_class c
                 | Err _ => false
                 end;
      v_ok := true; v_known := known_class c |}.
